@@ -534,7 +534,8 @@ impl Version {
         let mut best_level: usize = 0;
         let mut best_score: f64 = -1.;
 
-        for level in 0..MAX_NUM_LEVELS {
+        // The last level has no level below it to compact into, so it can never trigger a compaction
+        for level in 0..(MAX_NUM_LEVELS - 1) {
             let new_score: f64 = if level == 0 {
                 (self.files[level].len() / L0_COMPACTION_TRIGGER) as f64
             } else {
